@@ -116,7 +116,37 @@ func classifyPanic(x interface{}) string {
 	if len(s) > 300 {
 		s = s[:300]
 	}
-	return fmt.Sprintf("%T: %s", x, common.OneLine(s))
+	// the innermost goja function on the panicking stack (the frames after the last "panic(" line)
+	site := ""
+	lines := strings.Split(string(debug.Stack()), "\n")
+	last := -1
+	for i, l := range lines {
+		if strings.HasPrefix(l, "panic(") {
+			last = i
+		}
+	}
+	for i := last + 1; i >= 0 && i < len(lines); i++ {
+		l := lines[i]
+		if strings.HasPrefix(l, "github.com/dop251/goja.") && !strings.Contains(l, "verifC01") {
+			site = strings.TrimPrefix(l, "github.com/dop251/goja.")
+			if k := strings.LastIndex(site, "("); k > 0 {
+				site = site[:k]
+			}
+			break
+		}
+	}
+	return fmt.Sprintf("%T: %s @%s", x, common.OneLine(s), site)
+}
+
+// errText: err.Error() of a goja error can itself panic (it converts the thrown value to a string, which may
+// run script code); the harness must survive that.
+func errText(err error) (s string) {
+	defer func() {
+		if x := recover(); x != nil {
+			s = "<Error() panicked>"
+		}
+	}()
+	return err.Error()
 }
 
 func hasBugText(s string) bool {
@@ -152,7 +182,7 @@ func runOne(src string, obs map[string]int, obsSkip map[string]int, timeout time
 		return
 	}
 	if cerr != nil {
-		msg := cerr.Error()
+		msg := errText(cerr)
 		if hasBugText(msg) {
 			res.Violation, res.Detail = "compiler-bug-diagnostic", common.OneLine(msg)
 			return
@@ -168,9 +198,11 @@ func runOne(src string, obs map[string]int, obsSkip map[string]int, timeout time
 	}
 	// 3. dump (before instrumenting: same code either way)
 	for _, u := range goja.VerifC01DumpProgram(prg) {
-		endOk := "0"
+		endOk := "0" // function / constructor: ends with ret
 		if u.Kind == "program" {
-			endOk = "1"
+			endOk = "1" // runs to the end of the code at the entry height
+		} else if u.Kind == "fields" || u.Kind == "static" {
+			endOk = "2" // field initialiser program: runs to the end with the frame's this slot still there
 		}
 		res.Units = append(res.Units, "verify "+endOk+" "+strings.Join(u.Code, ";"))
 		res.unitKinds = append(res.unitKinds, u.Kind)
@@ -225,8 +257,8 @@ func runOne(src string, obs map[string]int, obsSkip map[string]int, timeout time
 			name = name[:24]
 		}
 		res.Outcome = "exception:" + name
-		if hasBugText(e.Error()) {
-			res.Violation, res.Detail = "compiler-bug-diagnostic", common.OneLine(e.Error())
+		if hasBugText(errText(e)) {
+			res.Violation, res.Detail = "compiler-bug-diagnostic", common.OneLine(errText(e))
 			return
 		}
 	case *goja.InterruptedError:
@@ -234,7 +266,7 @@ func runOne(src string, obs map[string]int, obsSkip map[string]int, timeout time
 	case *goja.StackOverflowError:
 		res.Outcome = "stack-overflow"
 	default:
-		res.Violation, res.Detail = "undocumented-error-kind", fmt.Sprintf("%T: %s", rerr, common.OneLine(rerr.Error()))
+		res.Violation, res.Detail = "undocumented-error-kind", fmt.Sprintf("%T: %s", rerr, common.OneLine(errText(rerr)))
 		return
 	}
 	// 5. the VM must be back at its entry state (interrupt included)
@@ -360,6 +392,9 @@ func cmdSearch(args []string) string {
 		if len(src) > sum.MaxLen {
 			sum.MaxLen = len(src)
 		}
+		// remember the program being run: a fatal Go error (stack exhaustion, out of memory) kills the process
+		// without passing through recover, and the orchestrator then finds the culprit here
+		_ = os.WriteFile(prefix+".cur", []byte(src), 0o644)
 		res := runOne(src, obs, sum.ObsSkipped, 300*time.Millisecond)
 		if res.Violation != "" {
 			sum.Outcomes["VIOLATION:"+res.Violation]++
